@@ -24,6 +24,10 @@ class PathInfeasible(Exception):
     pass
 
 
+def _is_arr(v):
+    return type(v).__name__ == "SArr"
+
+
 class PathLimit(Exception):
     pass
 
@@ -446,6 +450,10 @@ class Interp:
             return len(v) > 0
         if isinstance(v, tuple):
             return len(v) > 0
+        if _is_arr(v):
+            if len(v.data) == 1:
+                return self.truth(v.data[0], node)
+            raise PyRaise("ValueError", node, msg="truth value of an array is ambiguous")
         if isinstance(v, NanReal):
             # NaN is truthy, 0.0 is falsy
             return self.disj([v.isnan, self.truth(v.val, node)])
@@ -461,6 +469,8 @@ class Interp:
             return self.truth(v.inner, node)
         if isinstance(v, SDict):
             return len(v.d) > 0
+        if isinstance(v, SADict):
+            return len(v.keys) > 0
         if isinstance(v, SSet):
             return len(v.s) > 0
         if isinstance(v, (SymMap, SymSet)):
@@ -499,6 +509,16 @@ class Interp:
     def binop(self, op, a, b, node=None):
         a = self.force(a, node)
         b = self.force(b, node)
+        if _is_arr(a) or _is_arr(b):
+            from . import npmodel
+
+            return npmodel.arr_binop(self, op, a, b, node)
+        if isinstance(a, NanReal) or isinstance(b, NanReal):
+            an = a.isnan if isinstance(a, NanReal) else False
+            bn = b.isnan if isinstance(b, NanReal) else False
+            av = a.val if isinstance(a, NanReal) else a
+            bv = b.val if isinstance(b, NanReal) else b
+            return NanReal(self.disj([an, bn]), self.binop(op, av, bv, node))
         ka, kb = self.kind_of(a), self.kind_of(b)
         # sequences
         if isinstance(op, ast.Add):
@@ -622,6 +642,12 @@ class Interp:
         raise Unsupported("operator on objects", node)
 
     def unaryop(self, op, a, node=None):
+        if _is_arr(self.force(a, node)):
+            from . import npmodel
+
+            return npmodel.arr_unary(self, op, self.force(a, node), node)
+        if isinstance(op, ast.Invert) and isinstance(self.force(a, node), (bool, Sym)) and self.kind_of(self.force(a, node)) == "bool":
+            op = ast.Not()
         if isinstance(op, ast.Not):
             t = self.truth(a, node)
             if isinstance(t, bool):
@@ -655,6 +681,10 @@ class Interp:
             if isinstance(op, ast.NotIn):
                 r = (not r) if isinstance(r, bool) else z3.Not(r)
             return r if isinstance(r, bool) else self.mk(r, "bool")
+        if isinstance(op, (ast.Eq, ast.NotEq)) and (_is_arr(self.force(a, node)) or _is_arr(self.force(b, node))) and not (self.in_spec or self.nofork):
+            from . import npmodel
+
+            return npmodel.elementwise(self, lambda x, y: self.compare(op, x, y, node), self.force(a, node), self.force(b, node), node, "bool")
         if isinstance(op, (ast.Eq, ast.NotEq)):
             r = self.equal(a, b, node)
             if isinstance(op, ast.NotEq):
@@ -662,6 +692,10 @@ class Interp:
             return r if isinstance(r, bool) else self.mk(r, "bool")
         a = self.force(a, node)
         b = self.force(b, node)
+        if _is_arr(a) or _is_arr(b):
+            from . import npmodel
+
+            return npmodel.arr_compare(self, op, a, b, node)
         if isinstance(a, NanReal) or isinstance(b, NanReal):
             # IEEE: every ordering comparison involving NaN is False
             an = a.isnan if isinstance(a, NanReal) else False
@@ -794,8 +828,16 @@ class Interp:
             if set(a.d) != set(b.d):
                 return False
             return self.conj([self.equal(a.d[k], b.d[k], node) for k in a.d])
+        if isinstance(a, SADict) and isinstance(b, SADict):
+            if len(a.keys) != len(b.keys):
+                return False
+            return self.conj([self.equal(x, y, node) for x, y in zip(a.keys, b.keys)] + [self.equal(x, y, node) for x, y in zip(a.vals, b.vals)])
         if isinstance(a, SSet) and isinstance(b, SSet):
             return set(a.s) == set(b.s)
+        if _is_arr(a) and _is_arr(b):
+            if a.shape != b.shape:
+                return False
+            return self.conj([self.equal(x, y, node) for x, y in zip(a.data, b.data)])
         if isinstance(a, SObj) and isinstance(b, SObj):
             if a is b:
                 return True
@@ -953,6 +995,10 @@ class Interp:
         v = self.force(v, node)
         if isinstance(v, SList):
             return len(v.items)
+        if _is_arr(v):
+            if not v.shape:
+                raise PyRaise("TypeError", node)
+            return v.shape[0]
         if isinstance(v, SymList):
             return self.mk(v.length, "int")
         if isinstance(v, SSorted):
@@ -963,6 +1009,8 @@ class Interp:
             return len(v)
         if isinstance(v, SDict):
             return len(v.d)
+        if isinstance(v, SADict):
+            return len(v.keys)
         if isinstance(v, SSet):
             return len(v.s)
         if isinstance(v, (SymMap, SymSet)):
@@ -1018,6 +1066,10 @@ class Interp:
 
     def getitem(self, c, k, node=None):
         c = self.force(c, node)
+        if _is_arr(c):
+            from . import npmodel
+
+            return npmodel.arr_getitem(self, c, k, node)
         if isinstance(k, slice):
             return self.getslice(c, k, node)
         if isinstance(c, SSorted):
@@ -1082,6 +1134,20 @@ class Interp:
                         return vv
                 raise PyRaise("KeyError", node)
             raise Unsupported("dict key %r" % (k,), node)
+        if isinstance(c, SADict):
+            k = self.force(k, node)
+            if self.in_spec or self.nofork:
+                if not c.keys:
+                    raise Unsupported("lookup in empty dict inside a specification", node)
+                r = c.vals[-1]
+                for kk, vv in reversed(list(zip(c.keys, c.vals))[:-1]):
+                    r = self.ite(self.as_bool_term(self.equal(k, kk, node)), vv, r, node)
+                return r
+            for kk, vv in zip(c.keys, c.vals):
+                e = self.equal(k, kk, node)
+                if e if isinstance(e, bool) else self.branch(e, node):
+                    return vv
+            raise PyRaise("KeyError", node)
         if isinstance(c, SymMap):
             k = self.force(k, node)
             kt = self.z(k)
@@ -1177,6 +1243,10 @@ class Interp:
 
     def setitem(self, c, k, v, node=None):
         c = self.force(c, node)
+        if _is_arr(c):
+            from . import npmodel
+
+            return npmodel.arr_setitem(self, c, k, v, node)
         if isinstance(c, SList):
             self.note_write(c)
             k = self.force(k, node)
@@ -1212,8 +1282,19 @@ class Interp:
                 self.writeback(c)
                 return
             if isinstance(k, Sym) and not c.d:
-                raise Unsupported("symbolic key stored into an untyped concrete dict (declare the field as Map)", node)
+                raise Unsupported("symbolic key stored into an untyped concrete dict (declare the field as Map/ADict)", node)
             raise Unsupported("symbolic key into concrete dict", node)
+        if isinstance(c, SADict):
+            self.note_write(c)
+            k = self.force(k, node)
+            for i, kk in enumerate(c.keys):
+                e = self.equal(k, kk, node)
+                if e if isinstance(e, bool) else self.branch(e, node):
+                    c.vals[i] = v
+                    return
+            c.keys.append(k)
+            c.vals.append(v)
+            return
         if isinstance(c, SymMap):
             self.note_write(c)
             k = self.force(k, node)
@@ -1304,6 +1385,15 @@ class Interp:
                     del c.d[kk]
                     return
                 raise PyRaise("KeyError", node)
+        if isinstance(c, SADict):
+            self.note_write(c)
+            for i, kk in enumerate(c.keys):
+                e = self.equal(k, kk, node)
+                if e if isinstance(e, bool) else self.branch(e, node):
+                    del c.keys[i]
+                    del c.vals[i]
+                    return
+            raise PyRaise("KeyError", node)
         if isinstance(c, SymMap):
             self.note_write(c)
             kt = self.z(k)
@@ -1322,6 +1412,8 @@ class Interp:
     def contains(self, c, x, node=None):
         """``x in c`` -> python bool | z3 Bool"""
         c = self.force(c, node)
+        if _is_arr(c):
+            return self.disj([self.equal(x, y, node) for y in c.data])
         if isinstance(c, (SList, tuple)):
             items = c.items if isinstance(c, SList) else c
             return self.disj([self.equal(x, y, node) for y in items])
@@ -1332,6 +1424,8 @@ class Interp:
             if is_concrete_scalar(x) or isinstance(x, tuple):
                 return self.dict_key(x) in c.d
             return self.disj([self.equal(x, y, node) for y in c.d])
+        if isinstance(c, SADict):
+            return self.disj([self.equal(x, y, node) for y in c.keys])
         if isinstance(c, SymMap):
             x = self.force(x, node)
             if x is None:
@@ -1381,11 +1475,22 @@ class Interp:
             if t.kind == "none":
                 return None
             return self.fresh_scalar(t.kind, name)
+        if isinstance(t, S.Arr):
+            from . import npmodel
+
+            shp = t.shape
+            if bounded is not None and name in bounded:
+                shp = tuple(bounded[name]) if isinstance(bounded[name], (list, tuple)) else (bounded[name],)
+            if shp is None:
+                raise Unsupported("array parameter %s needs a concrete shape" % name)
+            n = 1
+            for d in shp:
+                n *= d
+            return npmodel.SArr(shp, [self.fresh(t.t, "%s[%d]" % (name, i), bounded) for i in range(n)], {"int": "int", "real": "real", "bool": "bool"}.get(getattr(t.t, "kind", "real"), "real"))
         if isinstance(t, S._NanRealT):
             return NanReal(z3.Bool(self.fresh_name(name + ".isnan")), self.fresh_scalar("real", name))
         if isinstance(t, S.Lit):
-            v = t.value
-            return Fraction(repr(v)) if isinstance(v, float) else v
+            return self.lit_value(t.value)
         if isinstance(t, S.Enum):
             if all(isinstance(x, str) for x in t.values):
                 v = self.fresh_scalar("str", name)
@@ -1411,6 +1516,17 @@ class Interp:
             else:
                 lst = self.fresh_symlist(t.t, name)
             return lst
+        if isinstance(t, S.ADict):
+            n = t.size
+            if n is None and bounded is not None:
+                n = bounded.get(name, bounded.get("*"))
+            if n is None:
+                raise Unsupported("ADict %s needs a concrete size" % name)
+            ks = [self.fresh(t.k, "%s.key%d" % (name, i), bounded) for i in range(n)]
+            for i in range(n):
+                for j in range(i):
+                    self.assume(z3.Not(self.as_bool_term(self.equal(ks[i], ks[j]))))
+            return SADict(ks, [self.fresh(t.v, "%s.val%d" % (name, i), bounded) for i in range(n)])
         if isinstance(t, S.Map):
             return self.fresh_symmap(t, name)
         if isinstance(t, S.SetT):
@@ -1421,6 +1537,17 @@ class Interp:
         if isinstance(t, S.Abstract):
             return AbstractObj(t.name, name)
         raise Unsupported("fresh value of type %r" % (t,))
+
+    def lit_value(self, v):
+        if isinstance(v, float):
+            return Fraction(repr(v))
+        if isinstance(v, list):
+            return SList([self.lit_value(x) for x in v])
+        if isinstance(v, tuple):
+            return tuple(self.lit_value(x) for x in v)
+        if isinstance(v, dict):
+            return SDict({k: self.lit_value(x) for k, x in v.items()})
+        return v
 
     def leaf_getter(self, t, name):
         """-> function(index term) -> value, backed by one z3 array per scalar leaf"""
@@ -1559,6 +1686,12 @@ class Interp:
             memo[id(v)] = o
             o.d = {k: self.snapshot(x, memo) for k, x in v.d.items()}
             return o
+        if isinstance(v, SADict):
+            o = SADict()
+            memo[id(v)] = o
+            o.keys = list(v.keys)
+            o.vals = [self.snapshot(x, memo) for x in v.vals]
+            return o
         if isinstance(v, SymMap):
             o = SymMap(v.ktype, v.vtype, v.has, v.get, v.card)
             o.keyseq = v.keyseq
@@ -1574,6 +1707,13 @@ class Interp:
             return o
         if isinstance(v, SSorted):
             o = SSorted(self.snapshot(v.inner, memo), v.key)
+            memo[id(v)] = o
+            return o
+        if _is_arr(v):
+            from . import npmodel
+
+            o = npmodel.SArr(v.shape, v.data, v.dtype)
+            o.order_only = v.order_only
             memo[id(v)] = o
             return o
         if isinstance(v, tuple):
